@@ -45,8 +45,8 @@ template <class G> struct C13 {
   template <class Rm> void check_rotation(const Rm& Rot, const ref::Mat& Rref, const std::string& key) {
     ref::Mat Rl = vf::toLM(Rot);
     const int n = (int)Rl.rows();
-    close((Rl - Rref).cwiseAbs().maxCoeff(), B::B1, "rotation()_is_supplied_rotation", key);
-    close((Rl * Rl.transpose() - ref::Mat::Identity(n, n)).cwiseAbs().maxCoeff(), 4 * B::B1 + 4 * B::eps_lib, "rotation()_orthonormal", key);
+    close(vf::maxabs((Rl - Rref)), B::B1, "rotation()_is_supplied_rotation", key);
+    close(vf::maxabs((Rl * Rl.transpose() - ref::Mat::Identity(n, n))), 4 * B::B1 + 4 * B::eps_lib, "rotation()_orthonormal", key);
     close(std::fabs(Rl.determinant() - 1), 4 * B::B1 + 6 * B::eps_lib, "rotation()_det_plus_one", key);
   }
 
@@ -157,7 +157,7 @@ template <class G> void C13<G>::run() {
     G Z(X.angle());
     close(g.diffM(vf::Mof(Z), vf::Mof(X), 1), B::B1, "accessors_fed_back_reproduce_element", key);
     ref::Mat Tm = vf::toLM(X.transform()); ref::Mat E = ref::Mat::Identity(3, 3); E.topLeftCorner(2, 2) = vf::Mof(X);
-    close((Tm - E).cwiseAbs().maxCoeff(), B::B1, "transform()_is_homogeneous_matrix", key);
+    close(vf::maxabs((Tm - E)), B::B1, "transform()_is_homogeneous_matrix", key);
     check_cast(X, key);
     G C(static_cast<const manif::LieGroupBase<G>&>(X));
     expect(vf::bits_equal(C.coeffs(), X.coeffs()), "copy_construct_preserves", key);
@@ -201,8 +201,8 @@ template <class G> void C13<G>::run() {
       close(std::max(std::fabs((ref::Real)X.real() - std::cos(tl)), std::fabs((ref::Real)X.imag() - std::sin(tl))), B::B1, "accessors_return_supplied", key);
       ref::Real a = (ref::Real)X.angle();
       close(std::max(std::fabs(std::cos(a) - std::cos(tl)), std::fabs(std::sin(a) - std::sin(tl))), B::B1, "angle()_is_supplied_angle_mod_2pi", key);
-      close((vf::toLM(X.transform()) - vf::Mof(X)).cwiseAbs().maxCoeff() / g.lin_scale_M(M), B::B1, "transform()_is_homogeneous_matrix", key);
-      close((vf::toLM(X.isometry().matrix()) - vf::Mof(X)).cwiseAbs().maxCoeff() / g.lin_scale_M(M), B::B1, "isometry()_is_homogeneous_matrix", key);
+      close(vf::maxabs((vf::toLM(X.transform()) - vf::Mof(X))) / g.lin_scale_M(M), B::B1, "transform()_is_homogeneous_matrix", key);
+      close(vf::maxabs((vf::toLM(X.isometry().matrix()) - vf::Mof(X))) / g.lin_scale_M(M), B::B1, "isometry()_is_homogeneous_matrix", key);
       // other constructors agree
       G A(x, y, X.real(), X.imag()), Bq(V2(x, y), std::complex<S>(X.real(), X.imag())), C(x, y, std::complex<S>(X.real(), X.imag())), D(X.isometry());
       expect(vf::bits_equal(A.coeffs(), X.coeffs()) && vf::bits_equal(Bq.coeffs(), X.coeffs()) && vf::bits_equal(C.coeffs(), X.coeffs()), "accessors_fed_back_reproduce_element", key);
@@ -269,7 +269,7 @@ template <class G> struct Make {
   static bool acc(const G& X, const V3& t, const V3&, S) {
     G Y = X; Y.translation(V3(S(1), S(2), S(3))); bool set = Y.x() == S(1) && Y.z() == S(3) && Y.quat().coeffs() == X.quat().coeffs();
     G W = G::Identity(); W.quat(manif::SO3<S>(X.quat())); set = set && W.quat().coeffs() == X.quat().coeffs();
-    G Z(X.isometry()); bool isoback = (Z.translation() - X.translation()).norm() == 0 && (Z.rotation() - X.rotation()).cwiseAbs().maxCoeff() < 16 * std::numeric_limits<S>::epsilon();
+    G Z(X.isometry()); bool isoback = (Z.translation() - X.translation()).norm() == 0 && vf::maxabs((Z.rotation() - X.rotation())) < 16 * std::numeric_limits<S>::epsilon();
     return X.translation() == t && X.x() == t(0) && X.y() == t(1) && X.z() == t(2) && iso(X) && set && isoback; }
 };
 #elif VF_KIND == 5
@@ -289,7 +289,7 @@ template <class G> struct Make {
   static bool acc(const G& X, const V3& t, const V3& v, S) {
     bool iso = X.isometry() == X.transform();
     Eigen::Transform<S, 3, Eigen::Isometry> h = Eigen::Translation<S, 3>(X.translation()) * X.quat();
-    G Z(h, X.linearVelocity()); bool isoback = (Z.translation() - X.translation()).norm() == 0 && Z.linearVelocity() == X.linearVelocity() && (Z.rotation() - X.rotation()).cwiseAbs().maxCoeff() < 16 * std::numeric_limits<S>::epsilon();
+    G Z(h, X.linearVelocity()); bool isoback = (Z.translation() - X.translation()).norm() == 0 && Z.linearVelocity() == X.linearVelocity() && vf::maxabs((Z.rotation() - X.rotation())) < 16 * std::numeric_limits<S>::epsilon();
     return X.translation() == t && X.x() == t(0) && X.y() == t(1) && X.z() == t(2) && X.linearVelocity() == v && X.vx() == v(0) && X.vy() == v(1) && X.vz() == v(2) && iso && isoback; }
 };
 #else
@@ -309,7 +309,7 @@ template <class G> struct Make {
   static bool acc(const G& X, const V3& t, const V3& v, S tau) {
     bool iso = X.isometry() == X.transform();
     Eigen::Transform<S, 3, Eigen::Isometry> h = Eigen::Translation<S, 3>(X.translation()) * X.quat();
-    G Z(h, X.linearVelocity(), X.t()); bool isoback = (Z.translation() - X.translation()).norm() == 0 && Z.linearVelocity() == X.linearVelocity() && Z.t() == X.t() && (Z.rotation() - X.rotation()).cwiseAbs().maxCoeff() < 16 * std::numeric_limits<S>::epsilon();
+    G Z(h, X.linearVelocity(), X.t()); bool isoback = (Z.translation() - X.translation()).norm() == 0 && Z.linearVelocity() == X.linearVelocity() && Z.t() == X.t() && vf::maxabs((Z.rotation() - X.rotation())) < 16 * std::numeric_limits<S>::epsilon();
     return X.translation() == t && X.x() == t(0) && X.y() == t(1) && X.z() == t(2) && X.linearVelocity() == v && X.vx() == v(0) && X.vy() == v(1) && X.vz() == v(2) && X.t() == tau && iso && isoback; }
 };
 #endif
@@ -337,7 +337,7 @@ template <class G> void C13<G>::run() {
       expect(back.x() == q.x() && back.y() == q.y() && back.z() == q.z() && back.w() == q.w(), "accessors_return_supplied", key);
       ref::Mat Tm = vf::toLM(X.transform());
       ref::Mat E = vf::Mof(X); if (Tm.rows() == E.rows() + 1) { ref::Mat E2 = ref::Mat::Identity(E.rows() + 1, E.rows() + 1); E2.topLeftCorner(E.rows(), E.rows()) = E; E = E2; }
-      close((Tm - E).cwiseAbs().maxCoeff() / g.lin_scale_M(M), B::B1, "transform()_is_homogeneous_matrix", key);
+      close(vf::maxabs((Tm - E)) / g.lin_scale_M(M), B::B1, "transform()_is_homogeneous_matrix", key);
       // same data through the other entry points
       G A = Mk::from_vec(t, q, v, tau), Bq = Mk::from_so3(t, manif::SO3<S>(q), v, tau);
       G C; Mk::assign_vec(C, t, q, v, tau);
@@ -430,7 +430,7 @@ template <class G> void C13<G>::run() {
     expect(vf::bits_equal(X.coeffs(), v), "accessors_return_supplied", key);
     check_matrix(X, g.toM(vf::toL(v)), key);
     ref::Mat Tm = vf::toLM(X.transform());
-    close((Tm.rows() == g.N ? (Tm - g.toM(vf::toL(v))).cwiseAbs().maxCoeff() : 1), 1e-300L, "transform()_is_homogeneous_matrix", key);
+    close((Tm.rows() == g.N ? vf::maxabs((Tm - g.toM(vf::toL(v)))) : 1), 1e-300L, "transform()_is_homogeneous_matrix", key);
     G Y; Y = v; expect(vf::bits_equal(Y.coeffs(), v), "all_constructors_agree", key);
     check_cast(X, key);
     if (i == 2) R.sample("{" + vf::kv("cell", vf::q(key)) + "," + vf::kv("coeffs", vf::decvec(X.coeffs())) + "}");
